@@ -264,6 +264,13 @@ func genCloseUnderLoad(g *vh.Gen) (string, string) {
 func gen(g *vh.Gen) {
 	// the assembled system (server.FullAssembly + Services.Start), one child process per case
 	asmsys.Gen(g, "asm15")
+	// requests on the monitor routes that are not valid WebSocket upgrades must leave nothing behind in the hub
+	for _, c := range [][2]int{{1, 150}, {3, 260}, {1, 1200}} {
+		g.Emit("wsbad", fmt.Sprint(c[0]), fmt.Sprint(c[1]))
+	}
+	for i := 0; i < g.N(0, 20); i++ {
+		g.Emit("wsbad", fmt.Sprint(1+g.Intn(4)), fmt.Sprint([]int{101, 150, 400, 3000}[g.Intn(4)]))
+	}
 	// thorough tier only (66 s of real time each): a healthy monitor with steady events stays attached beyond the pong deadline
 	for i := 0; i < g.N(0, 1); i++ {
 		g.Emit("wslong", "1", "66", "20")
